@@ -475,43 +475,7 @@ func init() {
 				st.PrevReward.Reward = pip(float64(10 * r.Intn(20))).String()
 			}
 			sc.Genesis = MarshalGenesis(st)
-			// steer period-first blocks into / around the window
-			now := sc.Time0
-			for i := range sc.Blocks {
-				bo := &sc.Blocks[i]
-				bo.Evidence = nil
-				h := uint64(sc.InitialH + int64(i))
-				if h%sc.Node.Period == 1 && r.Intn(4) != 0 {
-					day := (now/86400 + int64(r.Intn(2))) * 86400
-					var tod int64
-					switch r.Intn(8) {
-					case 0:
-						tod = 12*3600 - 1 - int64(r.Intn(5))
-					case 1:
-						tod = 12 * 3600
-					case 2:
-						tod = 15*3600 - 1
-					case 3:
-						tod = 15 * 3600
-					default:
-						tod = 12*3600 + int64(r.Intn(3*3600))
-					}
-					target := day + tod
-					if target <= now {
-						target += 86400
-					}
-					bo.Dt = target - now
-				}
-				now += bo.Dt
-				for j := range bo.Ops {
-					o := &bo.Ops[j]
-					if o.K == "sellusdt" || o.K == "sellbip" {
-						// fraction of the pool reserve: small moves, about 10%, large
-						o.V[0] = Amt{Mode: 1, M: uint64([]int{1, 5, 20, 52, 55, 60, 120, 400}[r.Intn(8)])}
-						o.NM, o.SM, o.MS, o.CH, o.G = 0, 0, nil, 0, 0
-					}
-				}
-			}
+			steerPriceWindow(r, sc, true)
 			return sc
 		},
 		Monitors: func(sc *Scenario) []Monitor { return []Monitor{&MonC28{}} },
@@ -558,4 +522,50 @@ func init() {
 		ExpectProbes: []string{"c19_accrual_checked", "c19_payout_checked", "c19_payout_validator_checked"},
 	})
 	_ = strings.TrimSpace
+}
+
+// steerPriceWindow moves the first block of stake periods into / around the 12:00-14:59 window of
+// the reward price update and sizes BIP/USDT trades as fractions of the pool (small moves, about
+// -10%, large drops and recoveries). strict also strips evidence and tx faults from those trades (C28).
+func steerPriceWindow(r *rand.Rand, sc *Scenario, strict bool) {
+	now := sc.Time0
+	for i := range sc.Blocks {
+		bo := &sc.Blocks[i]
+		if strict {
+			bo.Evidence = nil
+		}
+		h := uint64(sc.InitialH + int64(i))
+		if h%sc.Node.Period == 1 && r.Intn(4) != 0 {
+			day := (now/86400 + int64(r.Intn(2))) * 86400
+			var tod int64
+			switch r.Intn(8) {
+			case 0:
+				tod = 12*3600 - 1 - int64(r.Intn(5))
+			case 1:
+				tod = 12 * 3600
+			case 2:
+				tod = 15*3600 - 1
+			case 3:
+				tod = 15 * 3600
+			default:
+				tod = 12*3600 + int64(r.Intn(3*3600))
+			}
+			target := day + tod
+			if target <= now {
+				target += 86400
+			}
+			bo.Dt = target - now
+		}
+		now += bo.Dt
+		for j := range bo.Ops {
+			o := &bo.Ops[j]
+			if o.K == "sellusdt" || o.K == "sellbip" {
+				// fraction of the pool reserve: small moves, about 10%, large
+				o.V[0] = Amt{Mode: 1, M: uint64([]int{1, 5, 20, 52, 55, 60, 120, 400}[r.Intn(8)])}
+				if strict {
+					o.NM, o.SM, o.MS, o.CH, o.G = 0, 0, nil, 0, 0
+				}
+			}
+		}
+	}
 }
